@@ -11,7 +11,7 @@
  *   "cfg":     ["network/model:CM02", ...]     extra --cfg items (applied before the platform is created)
  *              defaults always applied first: network/model:CM02 network/TCP-gamma:0 network/crosstraffic:0
  *              network/latency-factor:1 network/bandwidth-factor:1 network/weight-S:0
- *   "prealloc": N                               malloc+touch N bytes before creating the engine (heap shift, C01)
+ *   "prealloc": N                               malloc N bytes in 1 KiB chunks before creating the engine (heap shift, C01)
  *   "signals": true                             also log Exec/Comm/Io/Mess on_start/on_completion signals
  *   "hosts":   [{"name":"h0","speed":1073741824,"cores":1,"disks":[{"name":"d0","rbw":1048576,"wbw":1048576}]}]
  *   "links":   [{"name":"l0","bw":1048576,"lat":0.5}]
@@ -33,7 +33,8 @@
  * ok | timeout | cancel | hostfail | netfail | storagefail | <op specific>), on_exit callbacks log
  * "on_exit <k>:<failed>:<own|inh>" (inh = registered by a previous incarnation and inherited through auto-restart),
  * and "end -" when the op list is exhausted.  An actor killed inside an op logs nothing for that op.
- * Signals: time_advance <delta>, terminated <name>, deadlock, sim_end, timer <date>, and with "signals":true
+ * Signals: time_advance <delta>, terminated <name>, deadlock, sim_end, timer <actor>:<date> (op timer / timer_in; the
+ * program-level "timers" log timer <date>), and with "signals":true
  * sig_start/sig_completion <kind> (written to the buffer of the context that fired them).
  *
  * OPS — table driven (see optable below; `sim --ops` prints it). v = activity variable, S = activity set,
@@ -406,11 +407,11 @@ static int run_program(const json& prog, int argc, char** argv)
     struct rlimit rl{sec, sec + 2};
     setrlimit(RLIMIT_CPU, &rl);
   }
-  if (size_t n = prog.value("prealloc", 0)) { // shift the heap: everything allocated later lives elsewhere
-    char* p = (char*)malloc(n);
-    for (size_t i = 0; i < n; i += 4096)
-      p[i] = 1;
-    // leaked on purpose
+  if (size_t n = prog.value("prealloc", 0)) { // shift the heap: everything allocated later lives n bytes further
+    for (size_t got = 0; got < n; got += 1040) { // small chunks stay in the brk heap (one big block would be mmap'ed)
+      char* p = (char*)malloc(1040);
+      p[0]    = 1; // leaked on purpose
+    }
   }
   std::vector<std::string> args = {"sim", "--log=root.thres:critical"};
   for (const char* d : {"network/model:CM02", "network/TCP-gamma:0", "network/crosstraffic:0", "network/latency-factor:1",
